@@ -130,9 +130,9 @@ func lockAlphabet(slots int) func(m *model.Model) []model.Op {
 
 func init() {
 	Registry["C07"] = func(t Tier) *Check {
-		d := 5
+		d := 6
 		if t == Thorough {
-			d = 6
+			d = 7
 		}
 		u := []ct.Comp{ct.P, ct.Q, ct.R1, ct.T9}
 		obs := []model.ObsSpec{{Event: model.EvRemoveEntity}, {Event: model.EvRemoveComponents}, {Event: model.EvSetComponents}, {Event: model.EvCustom}, {Event: model.EvRemoveRelations}}
